@@ -21,7 +21,9 @@ pub(crate) fn read_ref_alt(src: &mut &[u8], len: usize) -> io::Result<(String, A
         }
     }
 
-    let (raw_reference_bases, raw_alternate_bases) = alleles.split_at(1);
+    let (raw_reference_bases, raw_alternate_bases) = alleles
+        .split_at_checked(1)
+        .ok_or_else(|| io::Error::new(io::ErrorKind::InvalidInput, "missing reference bases"))?;
 
     let reference_bases = raw_reference_bases
         .first()
@@ -38,4 +40,30 @@ pub(crate) fn read_ref_alt(src: &mut &[u8], len: usize) -> io::Result<(String, A
         .map(AlternateBases::from)?;
 
     Ok((reference_bases, alternate_bases))
+}
+
+#[cfg(test)]
+mod tests {
+    use super::*;
+
+    #[test]
+    fn test_read_ref_alt() -> io::Result<()> {
+        let mut src = &[0x17, b'A', 0x17, b'C'][..];
+        let (reference_bases, alternate_bases) = read_ref_alt(&mut src, 2)?;
+        assert_eq!(reference_bases, "A");
+        assert_eq!(
+            alternate_bases,
+            AlternateBases::from(vec![String::from("C")])
+        );
+        Ok(())
+    }
+
+    #[test]
+    fn test_read_ref_alt_with_no_alleles() {
+        let mut src = &[][..];
+        assert!(matches!(
+            read_ref_alt(&mut src, 0),
+            Err(e) if e.kind() == io::ErrorKind::InvalidInput
+        ));
+    }
 }
